@@ -516,6 +516,11 @@ func (g *Gen) FailScenario() []AOp {
 // NameScenario: a named uuid in the less usual positions of one transaction - key of a map in an insert, then a
 // set of keys (or one bare key) in a delete mutation of that map, then a condition on the map.
 func (g *Gen) NameScenario() []AOp {
+	if g.chance(0.5) {
+		if ops := g.forwardCondScenario(); ops != nil {
+			return ops
+		}
+	}
 	type cand struct{ t, col, target string }
 	var cands []cand
 	for _, t := range g.tableNames() {
@@ -564,6 +569,48 @@ func (g *Gen) NameScenario() []AOp {
 		ops[i].Normalize()
 	}
 	g.count("named-map-key-delete")
+	return ops
+}
+
+// forwardCondScenario: conditions that name a row the transaction inserts only later. An insert without a
+// name stores the name in a set (or optional) uuid column; a select and an update then look that row up by
+// "includes <name>"; the named insert comes last.
+func (g *Gen) forwardCondScenario() []AOp {
+	type cand struct{ t, col, target string }
+	var cands []cand
+	for _, t := range g.tableNames() {
+		for _, cn := range g.S.Tables[t].ColNames() {
+			c := g.S.Tables[t].Cols[cn]
+			if k := KindOf(c); (k == "set" || k == "opt") && c.Key.T == "uuid" && c.Min == 0 && c.Mut && len(c.Key.Enum) == 0 {
+				cands = append(cands, cand{t, cn, c.Key.Ref})
+			}
+		}
+	}
+	if len(cands) == 0 {
+		return nil
+	}
+	c := cands[g.pick(len(cands))]
+	target := c.target
+	if target == "" {
+		target = c.t
+	}
+	name := fmt.Sprintf("@f%d", g.next)
+	holder := g.fresh()
+	hrow := g.MarkerRow(c.t, fmt.Sprintf("h%d", g.next), g.next)
+	hrow[c.col] = []interface{}{name}
+	where := [][]interface{}{{c.col, "includes", []interface{}{name}, "set"}}
+	ops := []AOp{
+		{Op: "insert", Table: c.t, UUID: holder, Row: hrow},
+		{Op: "select", Table: c.t, Where: where},
+		{Op: "update", Table: c.t, Where: where, Row: map[string]interface{}{c.col: []interface{}{name}}},
+	}
+	named := g.fresh()
+	ops = append(ops, AOp{Op: "insert", Table: target, UUID: named, UUIDName: name, Row: g.MarkerRow(target, fmt.Sprintf("q%d", g.next), g.next)})
+	ops = append(ops, AOp{Op: "select", Table: c.t, Where: byUUID(holder)})
+	for i := range ops {
+		ops[i].Normalize()
+	}
+	g.count("named-forward-condition")
 	return ops
 }
 
@@ -1106,11 +1153,67 @@ func (g *Gen) Scenario() []AOp {
 		}
 		return ops
 	}
-	kind := g.pick(5)
+	kind := g.pick(6)
 	if v := os.Getenv("VERIF_SCENARIO"); v != "" {
 		kind, _ = strconv.Atoi(v) // debugging aid: one kind of scenario only
 	}
 	switch kind {
+	case 5: // index values moved by arithmetic: transactions made of mutate operations only
+		type cand struct {
+			t  string
+			ix []string
+		}
+		var cands []cand
+		for _, tn := range g.tableNames() {
+			tb := g.S.Tables[tn]
+			if !g.rootSemantics()(tn) {
+				continue
+			}
+			for _, ix := range tb.Indexes {
+				ok := true
+				for _, cn := range ix {
+					c := tb.Cols[cn]
+					if !c.Mut || KindOf(c) != "atom" || c.Key.T != "integer" || len(c.Key.Enum) > 0 {
+						ok = false
+					}
+				}
+				if ok {
+					cands = append(cands, cand{tn, ix})
+				}
+			}
+		}
+		if len(cands) == 0 {
+			return nil
+		}
+		c := cands[g.pick(len(cands))]
+		last := c.ix[len(c.ix)-1]
+		ra := g.MarkerRow(c.t, fmt.Sprintf("ma%d", g.next), g.next)
+		g.next++
+		rb := g.MarkerRow(c.t, fmt.Sprintf("mb%d", g.next), g.next)
+		for _, cn := range c.ix {
+			rb[cn] = ra[cn]
+		}
+		rb[last] = ra[last].(int) + 1
+		a, b := g.fresh(), g.fresh()
+		inc := [][]interface{}{{last, "+=", 1, "atom"}}
+		dec := [][]interface{}{{last, "-=", 1, "atom"}}
+		var both [][]interface{}
+		if len(c.ix) > 1 {
+			both = [][]interface{}{{c.ix[0], "==", ra[c.ix[0]], "atom"}}
+		} else {
+			both = [][]interface{}{{last, ">=", ra[last], "atom"}}
+		}
+		later := [][]AOp{
+			{{Op: "mutate", Table: c.t, Where: byUUID(a), Mutations: inc}},                                                               // onto b's value: a duplicate
+			{{Op: "mutate", Table: c.t, Where: both, Mutations: inc}},                                                                    // both move on: legal
+			{{Op: "mutate", Table: c.t, Where: byUUID(b), Mutations: dec}},                                                               // back onto a's value: a duplicate
+			{{Op: "mutate", Table: c.t, Where: byUUID(a), Mutations: inc}, {Op: "mutate", Table: c.t, Where: byUUID(b), Mutations: inc}}, // a duplicate only in between
+		}
+		for _, ops := range later {
+			g.queue = append(g.queue, norm(ops))
+		}
+		g.count("mutate-onto-index-value")
+		return norm([]AOp{{Op: "insert", Table: c.t, UUID: a, Row: ra}, {Op: "insert", Table: c.t, UUID: b, Row: rb}})
 	case 4: // two indexes: a row gives up its value in the first; its value in the second is still taken
 		var ts []string
 		for _, tn := range g.tableNames() {
